@@ -983,8 +983,8 @@ pub struct State {
 fn parse_nums(t: &[&str]) -> Vec<u128> {
     t.iter()
         .map(|x| {
-            if let Some(s) = x.strip_prefix('-') {
-                (-(s.parse::<i128>().unwrap())) as u128
+            if x.starts_with('-') {
+                x.parse::<i128>().unwrap() as u128
             } else {
                 x.parse::<u128>().unwrap()
             }
